@@ -3,7 +3,8 @@
 contracts rely on (basic indexing, broadcasting, sum/diff/where/logical ops, dot, trapz, boolean-mask and fancy assignment, closures with
 default arguments, ...).  It is a test of the *checker*, not of dadi: a mismatch means a model in vf/pyvc.py is wrong.
 Usage: .venv/bin/python tools/crosscheck_e2.py [seed]      exit 0 = all agree, 1 = mismatch."""
-import sys, os, random, math
+import sys, os, random, math, warnings
+warnings.filterwarnings('ignore', category=SyntaxWarning)      # docstrings of the analysed files contain '\\g'; dadi's logging would echo the warning on every parse
 from fractions import Fraction as F
 sys.path.insert(0, os.path.dirname(os.path.dirname(os.path.abspath(__file__))))
 from vf import overlay          # noqa: F401  (puts the working tree of /repo on sys.path)
